@@ -1176,4 +1176,16 @@ theorem empty_tidy (nm : String) : Tidy ({ name := nm, children := [(none, [])] 
   · intro q; simp [Chart.childrenFor]
   · intro n; simp [Chart.parentFor]
 
+theorem empty_tidy' (nm : String) (d : Option String) (pr : Option Code) :
+    Tidy ({ name := nm, description := d, preamble := pr, children := [(none, [])] } : Chart) := by
+  refine ⟨List.nodup_nil, List.nodup_nil, by simp, ?_, ?_, ?_, ?_, ?_, ?_, ?_, ?_⟩
+  · intro k hk; cases hk
+  · intro k hk; simp [Chart.hasState, Chart.stateFor] at hk
+  · intro k hk; simp at hk
+  · intro k hk; simp [Chart.hasState, Chart.stateFor] at hk
+  · intro e he; cases he
+  · intro q ch; simp [Chart.childrenFor, Chart.parentFor]
+  · intro q; simp [Chart.childrenFor]
+  · intro n; simp [Chart.parentFor]
+
 end Sismic
